@@ -144,13 +144,32 @@ def check_raises(u, kind, val, allowed=("StepSolverError", "EvalError")):
     return True
 
 
+def when_rejected(acc, goal):
+    """the goal under the hypothesis 'the verdict is rejected': the verdict may be a Python bool (the code branched on
+    it) or a formula (the comparison was stored without branching) - never skip the clause because it is a formula"""
+    if acc is True:
+        return None
+    if acc is False:
+        return goal
+    return z3.Implies(z3.Not(acc), goal)
+
+
+def when_accepted(acc, goal):
+    if acc is False:
+        return None
+    if acc is True:
+        return goal
+    return z3.Implies(acc, goal)
+
+
 def base_post(u, res, dt, log, iterate):
     lam = u.get(res, "lamb")
     acc = u.get(res, "accepted")
     u.ensure(lam > 0, "result.lamb>0")
     u.ensure(isinstance(acc, bool) or z3.is_bool(acc), "accepted_is_bool")
-    if acc is False:
-        u.ensure(lam > 1 / dt, "rejected=>lamb_strictly_larger_than_1/dt")
+    g = when_rejected(acc, lam > 1 / dt)
+    if g is not None:
+        u.ensure(g, "rejected=>lamb_strictly_larger_than_1/dt")
     it_res = u.get(res, "iterate")
     u.ensure(any(it_res is s.fields["iterate"] for s in log["steps"]), "result.iterate_is_a_newton_step_iterate(in_box)")
     u.ensure(log["ns_args"][0] is iterate and log["ns_args"][1] is not None, "newton_steps_started_from_the_given_iterate")
@@ -165,15 +184,15 @@ def exact_step(u):
         return
     lam, acc = base_post(u, val, dt, log, iterate)
     res_it = u.get(val, "iterate")
-    if acc is True:
-        u.ensure(lam == (1 / dt) / 2, "exact:accepted=>lamb==(1/dt)/2")
+    if acc is not False:
+        u.ensure(when_accepted(acc, lam == (1 / dt) / 2), "exact:accepted=>lamb==(1/dt)/2")
         F = log["values"].get(id(res_it))
         u.ensure(F is not None, "exact:accepted=>residual_of_result_iterate_was_evaluated")
         if F is not None:
             nrm = npmodel.np_norm(u.it, F)
-            u.ensure(nrm <= params.fields["newton_tol"], "exact:accepted=>||F(result.iterate)||<=newton_tol")
-    else:
-        u.ensure(lam == 2 * (1 / dt), "exact:rejected=>lamb==2/dt")
+            u.ensure(when_accepted(acc, nrm <= params.fields["newton_tol"]), "exact:accepted=>||F(result.iterate)||<=newton_tol")
+    if acc is not True:
+        u.ensure(when_rejected(acc, lam == 2 * (1 / dt)), "exact:rejected=>lamb==2/dt")
     u.cover("end")
 
 
@@ -199,8 +218,9 @@ def distance_ratio_step(u):
     if not check_raises(u, kind, val):
         return
     lam, acc = base_post(u, val, dt, log, iterate)
-    if acc is False:
-        u.ensure(lam == (1 / dt) * params.fields["lamb_inc"], "ratio:rejected=>lamb==(1/dt)*lamb_inc")
+    g = when_rejected(acc, lam == (1 / dt) * params.fields["lamb_inc"])
+    if g is not None:
+        u.ensure(g, "ratio:rejected=>lamb==(1/dt)*lamb_inc")
     u.cover("end")
 
 
@@ -211,8 +231,9 @@ def residuum_ratio_step(u):
     if not check_raises(u, kind, val):
         return
     lam, acc = base_post(u, val, dt, log, iterate)
-    if acc is False:
-        u.ensure(lam == (1 / dt) * params.fields["lamb_inc"], "ratio:rejected=>lamb==(1/dt)*lamb_inc")
+    g = when_rejected(acc, lam == (1 / dt) * params.fields["lamb_inc"])
+    if g is not None:
+        u.ensure(g, "ratio:rejected=>lamb==(1/dt)*lamb_inc")
     u.cover("end")
 
 
